@@ -59,6 +59,18 @@ def check(spec, rng):
                 viol.append({'id': 'splitting-a-medium-changes-the-pattern', 'observed': float(np.max(np.abs(ps - pr)))})
         except ValueError:
             pass
+    if len(ms) == 2:
+        # the outer of two media split once more (same constants, same -- possibly non-zero -- height)
+        outer = dict(ms[1])
+        inner_piece = dict(outer, coord=ms[0]['coord'] + spec['split_at'], boundary=spec['boundary'])
+        split = [dict(ms[0]), inner_piece, dict(outer)]
+        try:
+            ps = pattern(solve(spec, split), zen, azi)
+            if np.max(np.abs(ps - pr)) > 1e-6:
+                viol.append({'id': 'splitting-the-outer-medium-changes-the-pattern', 'observed': float(np.max(np.abs(ps - pr))),
+                             'height': outer.get('height', 0.0)})
+        except ValueError:
+            pass
     # a further medium whose boundary lies (just) beyond every reflection point of this pattern cut
     pts = np.array([p.point for p in mr.pulses] + [e for p in mr.pulses for e in p.ends])
     zs = np.radians([zen[0] + k * zen[1] for k in range(zen[2])])
